@@ -579,6 +579,12 @@ class Evaluator:
                     self._invoke(m, st, [idx, v], {}, None, base, node)
                     return
             idx = self.eval_index(t.slice, st, base)
+            if isinstance(base, Kw) and isinstance(idx, Const) and isinstance(idx.v, str) and not aug and isinstance(t.value, (ast.Name, ast.Attribute)):
+                # d['key'] = v on a dictionary with known items: the dictionary with that item set (branches merge item by item)
+                items = dict(base.items)
+                items[idx.v] = v
+                self.rebind(t.value, Kw(items, base.rest), st)
+                return
             through = self._view_store(t, base, idx, st) if isinstance(t.value, ast.Name) else None
             if through == 'unknown':
                 self.issue(st, node, f"store through the view {ast.unparse(t.value)} of an array that is not held by a local name")
